@@ -6,15 +6,18 @@ Open Scope N_scope.
 
 Inductive cause := CTrunc | CNeg | CBadVersion | CDepth | CUnknownType.
 
-(* the type id Thrift assigns to each cause (protocol exception codes of exception.go) *)
+(* the type id Thrift assigns to each cause: TProtocolException codes as Thrift defines them
+   (INVALID_DATA 1, NEGATIVE_SIZE 2, BAD_VERSION 4, DEPTH_LIMIT 6) — literals, NOT the constants
+   regenerated from exception.go, so that a renumbering in the code is a failing input of the
+   correspondence run and not only a broken [consts_ok] obligation *)
 Definition cause_type (c : cause) : Z :=
   match c with
-  | CTrunc => thrift_INVALID_DATA
-  | CNeg => thrift_NEGATIVE_SIZE
-  | CBadVersion => thrift_BAD_VERSION
-  | CDepth => thrift_DEPTH_LIMIT
-  | CUnknownType => thrift_INVALID_DATA
-  end.
+  | CTrunc => 1
+  | CNeg => 2
+  | CBadVersion => 4
+  | CDepth => 6
+  | CUnknownType => 1
+  end%Z.
 
 Definition cause_eqb (a b : cause) : bool :=
   match a, b with
